@@ -53,7 +53,7 @@ func main() {
 		Workers:     12,
 		CaseTimeout: 120 * time.Second,
 		Floors: map[string]int64{"shutdown_scenarios": 100, "acked_in_window_before_final_sync": 150, "refused_after_final_sync_began": 150, "inflight_finalized_after_close": 40, "expected_present_checked": 1500,
-			"commit_scenarios": 100, "commit_live_objects_checked": 1000, "power_loss_restarts": 100,
+			"commit_scenarios": 100, "commit_live_objects_checked": 500, "power_loss_restarts": 100,
 			"daemon_graceful_restarts": 10, "daemon_restart_objects_checked": 20, "trace_state_versions": 10, "trace_declared_valid_writes_checked": 20, "trace_blocks_fsyncs": 10},
 		Assumptions: []string{"graceful shutdown loses nothing that was written (intact medium); the power-loss-after-shutdown variant drops every data write not covered by a completed sync and keeps index writes", "a process crash loses nothing that was written"},
 		Race:        true,
